@@ -51,8 +51,8 @@ Print Assumptions C03_wake_protocol.
 (* bounded: after the wait the runtime thread's own steps are always enabled
    and strictly decrease the measure mu_main until it polls the main future;
    steps of waker threads leave the measure alone, a kernel completion adds at
-   most one to it; a queued id forces drain_sync onto its slow path; the wait
-   is never entered while a task is hot *)
+   most one to it; a queued id forces drain_sync onto its slow path; a wait with
+   a hot task is about to end (see C03_hot_never_sleeps) *)
 Theorem C03_bounded : forall cf n tg ls s,
   targets_ok n tg -> steps (init cf n tg) ls = Some s ->
   (reg_main s = Pre ->
@@ -65,7 +65,7 @@ Theorem C03_bounded : forall cf n tg ls s,
      | _ => True
      end) /\
   (queue (e s) <> [] -> pending (e s) <> 0) /\
-  (at_wait s = true -> hot (e s) = []).
+  (at_wait s = true -> hot (e s) <> [] -> stuck s = false).
 Proof.
   intros cf n tg ls s Hok Hs. pose proof (reachable_inv _ _ _ _ _ Hok Hs) as Hi.
   split; [apply bounded_main; exact Hi|]. split; [apply bounded_env|]. apply bounded_drain; exact Hi.
@@ -147,6 +147,37 @@ Lemma C03_spin_wake_refuted :
             pc (r s) = RWait /\ queue (e s) = [(1, 1)] /\ flag (d s) = AWAKE_IDLE.
 Proof. exact spin_wake_refuted. Qed.
 Print Assumptions C03_spin_wake_refuted.
+
+(* external event loop: a task can be woken ON THE RUNTIME'S OWN THREAD from
+   outside run / flush / poll(zero) - by a host-loop callback or a foreign
+   executor's task - in particular after flush() and before the loop sleeps on
+   the driver's descriptor (label LLocal at RFlushArm / RExtWait / ext-mode
+   RReset / RMain0).  Local::schedule makes the task hot and wakes the driver,
+   so in no reachable state does the loop sleep un-notified with a hot task:
+   whenever the runtime is at its wait and a task is hot, the wait is ready to
+   return, or the kernel is about to post the notifier completion, or a
+   notifier write is on its way. *)
+Theorem C03_hot_never_sleeps : forall cf n tg ls s,
+  targets_ok n tg -> steps (init cf n tg) ls = Some s ->
+  at_wait s = true -> hot (e s) <> [] -> stuck s = false.
+Proof. exact hot_never_sleeps_reach. Qed.
+Print Assumptions C03_hot_never_sleeps.
+
+(* non-vacuity: run, flush, a host-loop callback wakes task 0, the loop is about
+   to sleep: hot task, flag NOTIFIED, eventfd written, notifier armed *)
+Example C03_nonvacuous_host_wake :
+  exists s, steps (init flush_cfg 1 []) host_witness = Some s /\
+            at_wait s = true /\ hot (e s) = [0] /\ stuck s = false /\ knotify_enabled s = true.
+Proof. exact local_wake_ok. Qed.
+Print Assumptions C03_nonvacuous_host_wake.
+
+(* a Local::schedule that does not wake the driver (hypothetical variant): same
+   schedule, the external loop sleeps with a runnable task *)
+Lemma C03_local_wake_refuted :
+  exists s, steps_v no_local_wake (init flush_cfg 1 []) host_witness = Some s /\
+            at_wait s = true /\ hot (e s) = [0] /\ stuck s = true.
+Proof. exact local_wake_refuted. Qed.
+Print Assumptions C03_local_wake_refuted.
 
 (* the acceptor of ./check C03 (model/RunC03.v, [dstep]) is the restriction of
    this LTS to the driver-level variables: every run, projected to the hook
